@@ -35,6 +35,10 @@ type Config struct {
 	SleepBudget    int     `json:"sleep_budget"`
 	KeysIndexMax   int     `json:"keys_index_max"`
 	KeysIndexMin   int     `json:"keys_index_min"`
+	VFS            bool    `json:"vfs,omitempty"` // route file operations through the recording / fault-injecting file layer
+	KeepFiles      bool    `json:"keep_files,omitempty"`
+	ReadOnly       bool    `json:"read_only,omitempty"`
+	CompactionSync bool    `json:"compaction_sync,omitempty"`
 }
 
 func (c Config) String() string {
@@ -119,11 +123,13 @@ type World struct {
 	pendingErr  *error
 
 	handles []*handle
+	vfs     *VFS
 
 	closedColl, closedStore bool
 	onErrors                int
 	persistOK               int // successful LowerLevelUpdate rounds (store backing: Persist returned nil)
 	reopenCount             int
+	lastAttempts            int
 	lastReopenDump          string
 
 	viols []Violation // violations detected by hooks during steps (gate, reopen)
@@ -176,6 +182,12 @@ func (w *World) storeOptions() (moss.StoreOptions, moss.StorePersistOptions) {
 		SegmentKeysIndexMaxBytes:    w.cfg.KeysIndexMax,
 		SegmentKeysIndexMinKeyBytes: w.cfg.KeysIndexMin,
 	}
+	so.KeepFiles = w.cfg.KeepFiles
+	so.CompactionSync = w.cfg.CompactionSync
+	so.CollectionOptions.ReadOnly = w.cfg.ReadOnly
+	if w.vfs != nil {
+		so.OpenFile = w.vfs.OpenFile
+	}
 	if so.CompactionLevelMaxSegments == 0 {
 		so.CompactionLevelMaxSegments = 2
 	}
@@ -191,6 +203,10 @@ func NewWorld(cfg Config, alpha []*BatchSpec) *World {
 	w := &World{cfg: cfg, alpha: alpha, ll: map[string]string{}, mains: map[int]bool{}, probes: probeKeys}
 	w.models = []*Node{NewNode()}
 	w.s = newSched(cfg)
+	if cfg.VFS {
+		w.vfs = newVFS()
+		w.s.OnRemove = func(path string) { w.vfs.rec(vfsOp{Kind: "unlink", File: filepath.Base(path)}) }
+	}
 	if cfg.Backing == "store" {
 		d, err := os.MkdirTemp(tmpRoot(), "mossw-")
 		if err != nil {
